@@ -361,10 +361,35 @@ fn sql_value(v: &Value) -> Option<String> {
     }
 }
 
+/// WHERE text of a condition tree. Half of the trees (chosen by a hash of the tree) are printed
+/// fully parenthesised, the other half with only the parentheses SQL's precedence requires (AND
+/// binds tighter than OR), so that the text path also depends on the parser's grouping.
 fn sql_cond(c: &Condition, m: &Model) -> Option<String> {
+    if hash_str(&format!("{:?}", c)) & 1 == 0 {
+        sql_cond_full(c, m)
+    } else {
+        sql_cond_min(c, m, 0)
+    }
+}
+
+fn sql_cond_min(c: &Condition, m: &Model, parent: u8) -> Option<String> {
     match c {
-        Condition::And(a, b) => Some(format!("({} AND {})", sql_cond(a, m)?, sql_cond(b, m)?)),
-        Condition::Or(a, b) => Some(format!("({} OR {})", sql_cond(a, m)?, sql_cond(b, m)?)),
+        Condition::And(a, b) => {
+            let s = format!("{} AND {}", sql_cond_min(a, m, 2)?, sql_cond_min(b, m, 2)?);
+            Some(if parent > 2 { format!("({})", s) } else { s })
+        }
+        Condition::Or(a, b) => {
+            let s = format!("{} OR {}", sql_cond_min(a, m, 1)?, sql_cond_min(b, m, 1)?);
+            Some(if parent > 1 { format!("({})", s) } else { s })
+        }
+        _ => sql_cond_full(c, m),
+    }
+}
+
+fn sql_cond_full(c: &Condition, m: &Model) -> Option<String> {
+    match c {
+        Condition::And(a, b) => Some(format!("({} AND {})", sql_cond_full(a, m)?, sql_cond_full(b, m)?)),
+        Condition::Or(a, b) => Some(format!("({} OR {})", sql_cond_full(a, m)?, sql_cond_full(b, m)?)),
         Condition::True => None,
         _ => {
             let (op, col, v) = leaf_parts(c)?;
